@@ -1845,6 +1845,9 @@ func elementToBytes(el *etree.Element) ([]byte, error) {
 	for space, uri := range namespaces {
 		doc.Root().CreateAttr("xmlns:"+space, uri)
 	}
+	// Write carriage returns in text as character references: written raw,
+	// xml.Unmarshal reads them back as line feeds.
+	doc.WriteSettings.CanonicalText = true
 
 	return doc.WriteToBytes()
 }
